@@ -1140,6 +1140,31 @@ func (c *simCtx) errValueFails(ev ssa.Value) (bool, bool) {
 // mapScenario: translate the scenario to the callee's parameters.
 func (c *simCtx) mapScenario(call *ssa.Call, g *ssa.Function) (scenario, bool) {
 	out, ok := c.mapScenario0(call, g)
+	if !ok && c.sc.Kind == scRegion && c.sc.Lo == c.sc.Hi && c.sc.Consts != "" && !c.sc.Elem && c.sc.Acc == nil && !c.sc.Fields && c.sc.SField == 0 {
+		// a witness evaluation (every input is one concrete integer): a helper that receives
+		// values computed from them is evaluated on those values
+		first := -1
+		all := true
+		for i, a := range call.Call.Args {
+			if i >= len(g.Params) {
+				break
+			}
+			if isIntType(g.Params[i].Type()) {
+				if _, isN := c.intConstOf(a); isN {
+					if first < 0 {
+						first = i
+					}
+				} else {
+					all = false
+				}
+			}
+		}
+		if first >= 0 && all {
+			n, _ := c.intConstOf(call.Call.Args[first])
+			out = scenario{Kind: scRegion, Param: first, Lo: float64(n), Hi: float64(n)}
+			ok = true
+		}
+	}
 	if ok {
 		out.Consts = ""
 		for i, a := range call.Call.Args {
@@ -2479,6 +2504,109 @@ func (c *simCtx) assignedUnderSubjectTest(al *ssa.Alloc, depth int) bool {
 			if under && c.mentionsSubject(ifi.Cond, depth+2) {
 				return true
 			}
+		}
+	}
+	// the variable is captured by a closure of this function that assigns it under a test
+	// of the (equally captured) subject: a callback-driven validation that records its
+	// failure in a variable of the enclosing function
+	if c.sc.Param < len(c.f.Params) {
+		subj := ssa.Value(c.f.Params[c.sc.Param])
+		var scan func(g *ssa.Function) bool
+		scan = func(g *ssa.Function) bool {
+			found := false
+			instrs(g, func(in ssa.Instruction) {
+				mc, ok := in.(*ssa.MakeClosure)
+				if !ok || found {
+					return
+				}
+				cl, ok := mc.Fn.(*ssa.Function)
+				if !ok || cl.Blocks == nil {
+					return
+				}
+				var fvAl, fvSub ssa.Value
+				for i, b := range mc.Bindings {
+					if i >= len(cl.FreeVars) {
+						break
+					}
+					if b == ssa.Value(al) {
+						fvAl = cl.FreeVars[i]
+					}
+					if b == subj || resolve(b) == subj {
+						fvSub = cl.FreeVars[i]
+					}
+					if a2, isA := b.(*ssa.Alloc); isA {
+						if sv := singleStore(a2); sv != nil && resolve(sv) == subj {
+							fvSub = cl.FreeVars[i]
+						} else if a2.Referrers() != nil {
+							for _, ref := range *a2.Referrers() {
+								if st, isSt := ref.(*ssa.Store); isSt && st.Addr == ssa.Value(a2) && resolve(st.Val) == subj {
+									fvSub = cl.FreeVars[i]
+								}
+							}
+						}
+					}
+				}
+				if fvAl == nil || fvSub == nil {
+					return
+				}
+				usesSub := func(cond ssa.Value) bool {
+					hit := false
+					var walk func(v ssa.Value, d int)
+					walk = func(v ssa.Value, d int) {
+						if hit || d > 6 || v == nil {
+							return
+						}
+						if v == fvSub {
+							hit = true
+							return
+						}
+						switch y := v.(type) {
+						case *ssa.BinOp:
+							walk(y.X, d+1)
+							walk(y.Y, d+1)
+						case *ssa.UnOp:
+							walk(y.X, d+1)
+						case *ssa.Call:
+							for _, a := range y.Call.Args {
+								walk(a, d+1)
+							}
+						case *ssa.Extract:
+							walk(y.Tuple, d+1)
+						case *ssa.Convert:
+							walk(y.X, d+1)
+						case *ssa.Phi:
+							for _, e := range y.Edges {
+								walk(e, d+1)
+							}
+						}
+					}
+					walk(cond, 0)
+					return hit
+				}
+				instrs(cl, func(in2 ssa.Instruction) {
+					st, ok := in2.(*ssa.Store)
+					if !ok || st.Addr != fvAl || found {
+						return
+					}
+					for _, blk := range cl.Blocks {
+						t, fl, ifi := ifSuccs(blk)
+						if ifi == nil || t == fl {
+							continue
+						}
+						for _, sd := range []*ssa.BasicBlock{t, fl} {
+							if (sd == st.Block() && len(sd.Preds) == 1) || blockDominatedByEdge(cl, blk, sd, st.Block()) {
+								if usesSub(ifi.Cond) {
+									found = true
+								}
+							}
+						}
+					}
+				})
+			})
+			return found
+		}
+		if scan(c.f) {
+			return true
 		}
 	}
 	return false
